@@ -433,6 +433,7 @@ func c05(c *core.Ctx) {
 	if c.Rule("R6", "goroutine and CancelFunc inventory: every go body blocks only in ctx-guarded selects or bounded I/O; every CancelFunc obtained in per-call code is deferred, stored where it is called, registered with a finalizer, or returned to a caller that defers it", 8) {
 		c05Goroutines(c, fns)
 		c05Cancels(c, fns)
+		c05ReplyBodyClosed(c, fns)
 		c.EndRule()
 	}
 
@@ -1779,4 +1780,91 @@ func keysOfPos(m map[string]token.Pos) []string {
 	}
 	sort.Strings(out)
 	return out
+}
+
+// closesBody: the function (or literal) calls Close on something that is a
+// Body field of an *http.Response (directly, or through a package helper that
+// closes its io.ReadCloser parameter).
+func closesBody(fn *ssa.Function, depth int) bool {
+	if fn == nil || fn.Blocks == nil || depth > 2 {
+		return false
+	}
+	found := false
+	core.Instrs(fn, func(in ssa.Instruction) {
+		cc := core.CallOf(in)
+		if cc == nil || found {
+			return
+		}
+		if cc.IsInvoke() && cc.Method.Name() == "Close" {
+			t := core.TypeStr(cc.Value.Type())
+			if t == "io.ReadCloser" || strings.HasSuffix(t, "ReadCloser") {
+				found = true
+			}
+		}
+		if sc := cc.StaticCallee(); sc != nil && sc != fn && sc.Pkg != nil && strings.HasPrefix(sc.Pkg.Pkg.Path(), core.ModulePath) && closesBody(sc, depth+1) {
+			found = true
+		}
+	})
+	return found
+}
+
+// c05ReplyBodyClosed: after a successful RoundTrip the reply body is closed on
+// every path: the close (or the defer / goroutine that performs it) is passed
+// on every path from the nil-error edge of RoundTrip to a return. An unclosed
+// body keeps the transport's read/write goroutines and the connection alive
+// ("after a call has completed no goroutine of the library remains").
+func c05ReplyBodyClosed(c *core.Ctx, fns []*ssa.Function) {
+	n := 0
+	for _, fn := range fns {
+		for _, rt := range core.CallsIn(fn, func(_ *ssa.Call, ci core.CallInfo) bool { return ci.Iface && ci.Name == "RoundTrip" }) {
+			n++
+			key := core.FuncName(fn) + ":reply-body-closed-on-every-path"
+			isClose := func(in ssa.Instruction) bool {
+				cc := core.CallOf(in)
+				if cc == nil {
+					return false
+				}
+				if cc.IsInvoke() && cc.Method.Name() == "Close" && strings.HasSuffix(core.TypeStr(cc.Value.Type()), "ReadCloser") {
+					return true
+				}
+				if sc := cc.StaticCallee(); sc != nil && closesBody(sc, 0) {
+					return true
+				}
+				for _, o := range core.Origins(cc.Value) {
+					if mc, ok := o.(*ssa.MakeClosure); ok && closesBody(mc.Fn.(*ssa.Function), 0) {
+						return true
+					}
+				}
+				return false
+			}
+			// paths on which RoundTrip succeeded: do not take the err != nil edge
+			errNonNil := func(f core.Fact) bool {
+				if f.Op != token.NEQ || !core.IsNilConst(f.Y) {
+					return false
+				}
+				return core.OriginIs(f.X, func(o ssa.Value) bool { cr, idx, ok := core.CallResult(o); return ok && cr == rt && idx == 1 })
+			}
+			reach := core.Walk(core.After(rt), isClose, func(b *ssa.BasicBlock, si int) bool {
+				iff, ok := b.Instrs[len(b.Instrs)-1].(*ssa.If)
+				if !ok {
+					return true
+				}
+				return !errNonNil(core.CondFact(iff.Cond, si == 0))
+			})
+			bad := false
+			var where token.Pos
+			for _, r := range core.Returns(fn) {
+				if reach[r] {
+					bad, where = true, r.Pos()
+				}
+			}
+			if !where.IsValid() {
+				where = rt.Pos()
+			}
+			c.Check(!bad, key, where, "after a successful RoundTrip every path to a return passes the close of the reply body (a defer or the reader goroutine registered right after the error test)", "after a successful RoundTrip a return is reachable before the reply body's close has been arranged (an early return above the defer): the body is never closed, so the transport's connection and its read/write goroutines stay behind after the call has completed")
+		}
+	}
+	if n < 2 {
+		c.Fail("httpgrpc:roundtrips", token.NoPos, "ANCHOR-MISSING: expected the unary and the streaming RoundTrip, found %d", n)
+	}
 }
